@@ -304,6 +304,10 @@ package parse
 //@   ensures[S] result != nil
 //@ extern bytes.IndexByte
 //@   ensures[S] -1 <= result && result < len(b)
+// bytes.Replace returns a copy and leaves its arguments untouched (documented behaviour of package bytes)
+//@ extern bytes.Replace
+//@   pure
+//@   ensures[S] true
 //@ extern bytes.Equal
 //@   ensures[S] result ==> len(a) == len(b)
 
